@@ -61,7 +61,50 @@ fn xexpand_sources(spec: &str) -> (Vec<String>, Vec<String>) {
     (arrange(user(&sugar)), arrange(user(&expanded)))
 }
 
+fn check_clauses(spec: &str) -> CaseResult {
+    let f: Vec<&str> = spec.split('|').collect();
+    let (special, pos, order) = (f[1], f[2].parse::<usize>().unwrap_or(0), f[3]);
+    let mut clauses = vec!["Gamma, max-g FROM Lib2".to_string(), "Delta, min-d FROM Lib3".to_string()];
+    let (sp_clause, sp_use, lib1) = if special == "class" {
+        ("MY-CLASS FROM Lib1", "k MY-CLASS.&id", "MY-CLASS ::= CLASS { &id INTEGER UNIQUE, &Type } WITH SYNTAX { &Type IDENTIFIED BY &id }")
+    } else {
+        ("Ext{} FROM Lib1", "k Ext {INTEGER}", "Ext {X} ::= SEQUENCE { x X }")
+    };
+    clauses.insert(pos, sp_clause.to_string());
+    let user = format!("User DEFINITIONS AUTOMATIC TAGS ::= BEGIN\nIMPORTS {};\nA ::= SEQUENCE {{ g Gamma, d Delta, i INTEGER (min-d..max-g), {sp_use} }}\nEND\n", clauses.join(" "));
+    let libs = vec![
+        format!("Lib1 DEFINITIONS AUTOMATIC TAGS ::= BEGIN\n{lib1}\nEND\n"),
+        "Lib2 DEFINITIONS AUTOMATIC TAGS ::= BEGIN\nGamma ::= BOOLEAN\nmax-g INTEGER ::= 7\nEND\n".to_string(),
+        "Lib3 DEFINITIONS AUTOMATIC TAGS ::= BEGIN\nDelta ::= NULL\nmin-d INTEGER ::= 1\nEND\n".to_string(),
+    ];
+    let mut srcs = libs.clone();
+    if order == "user-first" { srcs.insert(0, user.clone()) } else { srcs.push(user.clone()) }
+    let key = |k: &str| format!("module|use-line|clauses|special={special}|pos={}|{k}", ["first", "middle", "last"][pos.min(2)]);
+    let dump = srcs.join("\n");
+    let gen = match compile_rasn(&srcs, &Cfg::default()) {
+        Outcome::Ok { generated, .. } => generated,
+        other => return CaseResult { discs: vec![Disc::new(key(&format!("rejected:{}", other.class())), format!("{}\n{dump}", other.brief()))], nontrivial: false, outcome: "rejected".into(), skipped: None },
+    };
+    let mut discs = vec![];
+    match project(&gen).ok().and_then(|p| p.module("user").cloned()) {
+        Some(m) => {
+            let uses: Vec<String> = m.uses().iter().map(|u| u.replace(' ', "")).collect();
+            for (lib, want) in [("lib2", "{Gamma,MAX_G}"), ("lib3", "{Delta,MIN_D}")] {
+                let line = uses.iter().find(|u| u.contains(&format!("super::{lib}::")));
+                if line.map_or(true, |l| !l.ends_with(&format!("super::{lib}::{want}"))) {
+                    discs.push(Disc::new(key(&format!("lib={lib}")), format!("expected `use super::{lib}::{want}`, use lines: {uses:?}\n{dump}\n--- generated ---\n{gen}")));
+                }
+            }
+        }
+        None => discs.push(Disc::new(key("no-module"), format!("{dump}\n{gen}"))),
+    }
+    CaseResult { discs, nontrivial: true, outcome: "clauses".into(), skipped: None }
+}
+
 fn check_xexpand(spec: &str) -> CaseResult {
+    if spec.starts_with("clauses|") {
+        return check_clauses(spec);
+    }
     let (sug, exp) = xexpand_sources(spec);
     let f: Vec<&str> = spec.split('|').collect();
     let key = |k: &str| format!("module|expansion-across-modules|kind={}|lib={}|user={}|same-default={}|{k}", f[0], f[1], f[2], f[1] == f[2]);
@@ -275,7 +318,7 @@ impl Prop for C12 {
         "C12"
     }
     fn rule(&self) -> String {
-        "module sets of 2 modules (all 8×8 tagging×extensibility default assignments × all 4 import digraphs) and of 3 modules (pairwise-distinct defaults from a 4-palette × all 64 import digraphs, cyclic included; thorough also 4 modules on a ring/star/complete graph); every module has a tagged SEQUENCE, CHOICE, ENUMERATED, a type and a value, and uses each imported type as component type and each imported value as constraint endpoint (variants: all modules define the same names; an imported value whose type is not imported; every module constrains an INTEGER by its own named numbers while the last module defines values of exactly those names); for every set: every non-empty subset closed under `imports from`, in every order, handed to one Compiler as one literal per module (and once as a single concatenated literal), with and without default_wildcard_imports, plus one duplicated source. (family expansion across modules: COMPONENTS OF an imported SEQUENCE in a SEQUENCE / SET, a selection type of an imported CHOICE as assignment / component, the imported components carrying tags without keyword, library and user module under every pair of tagging defaults, both name orders, both source orders; the result equals the hand-expanded type whose tags carry the keyword of the *library's* default). Oracle: differential — the `pub mod x` projection of X in the joint run equals that of X compiled with only its import closure; one `use super::<y>::{…}` per IMPORTS clause with exactly the mangled symbols in clause order (`*` iff wildcard); module-qualified references render as super::<y>::<T>, also when they close a type cycle across two modules and are boxed. Non-trivial: joint and stand-alone runs compiled cleanly and every module block was compared.".into()
+        "module sets of 2 modules (all 8×8 tagging×extensibility default assignments × all 4 import digraphs) and of 3 modules (pairwise-distinct defaults from a 4-palette × all 64 import digraphs, cyclic included; thorough also 4 modules on a ring/star/complete graph); every module has a tagged SEQUENCE, CHOICE, ENUMERATED, a type and a value, and uses each imported type as component type and each imported value as constraint endpoint (variants: all modules define the same names; an imported value whose type is not imported; every module constrains an INTEGER by its own named numbers while the last module defines values of exactly those names); for every set: every non-empty subset closed under `imports from`, in every order, handed to one Compiler as one literal per module (and once as a single concatenated literal), with and without default_wildcard_imports, plus one duplicated source. (family clauses: three IMPORTS clauses of which one imports an information object class / a parameterized symbol, at every position: the other clauses become use lines of exactly their symbols) (family expansion across modules: COMPONENTS OF an imported SEQUENCE in a SEQUENCE / SET, a selection type of an imported CHOICE as assignment / component, the imported components carrying tags without keyword, library and user module under every pair of tagging defaults, both name orders, both source orders; the result equals the hand-expanded type whose tags carry the keyword of the *library's* default). Oracle: differential — the `pub mod x` projection of X in the joint run equals that of X compiled with only its import closure; one `use super::<y>::{…}` per IMPORTS clause with exactly the mangled symbols in clause order (`*` iff wildcard); module-qualified references render as super::<y>::<T>, also when they close a type cycle across two modules and are boxed. Non-trivial: joint and stand-alone runs compiled cleanly and every module block was compared.".into()
     }
     fn enumerate(&self, tier: Tier, _seed: u64) -> Vec<Case> {
         let tags = ["", "EXPLICIT", "IMPLICIT", "AUTOMATIC"];
@@ -348,6 +391,15 @@ impl Prop for C12 {
                             out.push(Case { mods: stub.clone(), order: vec![0], single_source: false, wildcard: false, shared: false, assoc: false, capture: false, xexpand: format!("{kind}|{dl}|{du}|{lib}|{order}") });
                         }
                     }
+                }
+            }
+        }
+        // several IMPORTS clauses of which one needs the wildcard (an information object class, a parameterized symbol):
+        // the other clauses still name exactly their symbols, wherever the special clause stands
+        for special in ["class", "parameterized"] {
+            for pos in 0..3usize {
+                for order in ["user-first", "user-last"] {
+                    out.push(Case { mods: stub.clone(), order: vec![0], single_source: false, wildcard: false, shared: false, assoc: false, capture: false, xexpand: format!("clauses|{special}|{pos}|{order}") });
                 }
             }
         }
